@@ -740,7 +740,7 @@ Proof.
     rewrite get_e_cresize_rows by lia. rewrite R4.
     destruct (Nat.ltb_spec r (dim S g)).
     + rewrite get_mk by lia. bdestruct; try lia; reflexivity.
-    + rewrite get_e_zero by lia. bdestruct; try lia; try reflexivity. apply get_e_zero; lia.
+    + bdestruct; try lia; rewrite !get_e_zero by lia; reflexivity.
   - (* covariance *)
     set (dold := dcov S g). set (dadd := mrows S q). set (dcov' := dold + dadd). set (comps := components S g).
     assert (Sh1 : shape (e_cresize_like S (cov_ S g) (e_zero S dcov' (dcov' * comps))) dcov' (dcov' * comps))
@@ -785,7 +785,116 @@ Proof.
   rewrite get_e_cresize_rows by lia. rewrite Rs.
   destruct (Nat.ltb_spec r (dim S (base S p))).
   + rewrite get_mk by lia. bdestruct; try lia; reflexivity.
-  + rewrite get_e_zero by lia. bdestruct; try lia; try reflexivity. apply get_e_zero; lia.
+  + bdestruct; try lia; rewrite !get_e_zero by lia; reflexivity.
 Qed.
+
+
+Lemma gm_augment_twice_content q1 q2 g :
+  Consistent g -> 1 <= components S g -> mrows S q1 = mcols S q1 -> mrows S q2 = mcols S q2 ->
+  let g2 := snd (gm_augment S q2 (snd (gm_augment S q1 g))) in
+  dn S g2 = dn S g + mrows S q1 + mrows S q2
+  /\ forall i, i < components S g ->
+       gm_mean S g2 i = vcat (vcat (gm_mean S g i) (e_zero S (mrows S q1) 1)) (e_zero S (mrows S q2) 1)
+       /\ gm_cov S g2 i = blockdiag (blockdiag (gm_cov S g i) q1) q2.
+Proof.
+  intros HC Hc H1 H2. cbv zeta.
+  destruct (gm_augment_content q1 g HC Hc H1) as (_ & E1 & _ & _ & _ & _ & En & _ & _ & Hi1).
+  pose proof (gm_augment_consistent q1 g HC) as HC1.
+  assert (Hc1 : 1 <= components S (snd (gm_augment S q1 g))) by (rewrite E1; exact Hc).
+  destruct (gm_augment_content q2 _ HC1 Hc1 H2) as (_ & E2 & _ & _ & _ & _ & En2 & _ & _ & Hi2).
+  split; [rewrite En2, En; reflexivity|].
+  intros i Hi. destruct (Hi1 i Hi) as (M1 & V1 & _).
+  assert (Hi' : i < components S (snd (gm_augment S q1 g))) by (rewrite E1; exact Hi).
+  destruct (Hi2 i Hi') as (M2 & V2 & _). rewrite M2, V2, M1, V1. auto.
+Qed.
+
+(* ------------------------------------------------------------ concatenation *)
+Lemma ps_concat_content rhs p : Consistent_ps p -> concat_ok rhs p ->
+  let p' := ps_concat S junk rhs p in
+  let g := base S p in let r := base S rhs in let g' := base S p' in
+  components S g' = components S g + components S r
+  /\ dim S g' = dim S g /\ dcov S g' = dcov S g /\ dl S g' = dl S g /\ dc S g' = dc S g /\ dn S g' = dn S g
+  /\ use_quat S g' = use_quat S g /\ dcc S g' = dcc S g
+  /\ (forall i, i < components S g ->
+        gm_mean S g' i = gm_mean S g i /\ gm_cov S g' i = gm_cov S g i
+        /\ gm_weight S g' i = gm_weight S g i /\ ps_state S p' i = ps_state S p i)
+  /\ (forall i, i < components S r ->
+        gm_mean S g' (components S g + i) = gm_mean S r i /\ gm_cov S g' (components S g + i) = gm_cov S r i
+        /\ gm_weight S g' (components S g + i) = gm_weight S r i
+        /\ ps_state S p' (components S g + i) = ps_state S rhs i).
+Proof.
+  intros [HC Hs] ([HCr Hsr] & Ed & Ev).
+  pose proof HC as (_ & _ & _ & (R4 & C4 & W4) & (R5 & C5 & W5) & (R6 & C6 & W6)).
+  pose proof HCr as (_ & _ & _ & (R4r & C4r & W4r) & (R5r & C5r & W5r) & (R6r & C6r & W6r)).
+  pose proof Hs as (Rs & Cs & Ws). pose proof Hsr as (Rsr & Csr & Wsr).
+  cbv zeta. unfold ps_concat. simpl.
+  set (n1 := components S (base S p)) in *. set (n2 := components S (base S rhs)) in *.
+  set (dv := dcov S (base S p)) in *. set (d := dim S (base S p)) in *.
+  repeat (split; [reflexivity|]).
+  pose proof (shape_e_cresize_cols _ _ _ (n1 + n2) (conj R4 (conj C4 W4))) as (Rm & Cm & _).
+  pose proof (shape_e_cresize_cols _ _ _ (n1 + n2) (conj Rs (conj Cs Ws))) as (Rt & Ct & _).
+  pose proof (shape_e_cresize_cols _ _ _ (dv * (n1 + n2)) (conj R5 (conj C5 W5))) as (Rc & Cc & _).
+  pose proof (shape_e_cresize_vec _ _ (n1 + n2) (conj R6 (conj C6 W6))) as (Rw & Cw & _).
+  assert (Eo : dv * (n1 + n2) - dv * n2 = dv * n1) by nia.
+  split; intros i Hi; unfold gm_mean, gm_cov, gm_weight, ps_state, e_col, e_middle_cols; simpl;
+    rewrite ?Rm, ?Rt, ?Rc, ?Rw, ?Cm, ?Ct, ?Cc, ?Cw, ?Eo, ?R4, ?R5, ?Rs, ?R4r, ?R5r, ?Rsr; fold d dv;
+    rewrite ?Ed, ?Ev; fold d dv.
+  - split; [|split; [|split]].
+    + apply mk_ext. intros x j Hx Hj. rewrite get_e_set_block by lia. rewrite ?Cm, ?R4r, ?C4r, ?Ed. fold d n2.
+      rewrite get_e_cresize_cols by lia. rewrite ?C4. fold n1. bdestruct; try lia; reflexivity.
+    + apply mk_ext. intros x k Hx Hk. assert (dv * i + k < dv * n1) by nia.
+      rewrite get_e_set_block by (try lia; nia). rewrite ?Cc, ?Eo, ?R5r, ?C5r, ?Ev. fold dv n2.
+      rewrite get_e_cresize_cols by (try lia; nia). rewrite ?C5. fold dv n1. bdestruct; try lia; reflexivity.
+    + rewrite get_e_set_block by lia. rewrite ?Rw, ?R6r, ?C6r. fold n2.
+      rewrite get_e_cresize_vec by lia. rewrite ?R6. fold n1. bdestruct; try lia; reflexivity.
+    + apply mk_ext. intros x j Hx Hj. rewrite get_e_set_block by lia. rewrite ?Ct, ?Rsr, ?Csr, ?Ed. fold d n2.
+      rewrite get_e_cresize_cols by lia. rewrite ?Cs. fold n1. bdestruct; try lia; reflexivity.
+  - split; [|split; [|split]].
+    + apply mk_ext. intros x j Hx Hj. rewrite get_e_set_block by lia. rewrite ?Cm, ?R4r, ?C4r, ?Ed. fold d n2.
+      bdestruct; try lia. f_equal; lia.
+    + apply mk_ext. intros x k Hx Hk. assert (dv * (n1 + i) + k < dv * (n1 + n2)) by nia.
+      assert (dv * n1 <= dv * (n1 + i) + k) by nia.
+      rewrite get_e_set_block by lia. rewrite ?Cc, ?Eo, ?R5r, ?C5r, ?Ev. fold dv n2.
+      bdestruct; try lia; try nia. f_equal; nia.
+    + rewrite get_e_set_block by lia. rewrite ?Rw, ?R6r, ?C6r. fold n2.
+      bdestruct; try lia. f_equal; lia.
+    + apply mk_ext. intros x j Hx Hj. rewrite get_e_set_block by lia. rewrite ?Ct, ?Rsr, ?Csr, ?Ed. fold d n2.
+      bdestruct; try lia. f_equal; lia.
+Qed.
+
+Lemma ps_plus_is_concat lhs rhs : ps_plus S junk lhs rhs = ps_concat S junk rhs lhs.
+Proof. unfold ps_plus. rewrite ps_copy_id. reflexivity. Qed.
+
+(* the premise concat_ok is what makes `+=` defined (no Eigen assertion), and it is necessary
+   as soon as the right operand has a component *)
+Lemma ps_concat_defined_ok rhs p : Consistent_ps p -> concat_ok rhs p -> ps_concat_defined S junk rhs p = true.
+Proof.
+  intros [HC Hs] ([HCr Hsr] & Ed & Ev).
+  pose proof HC as (_ & _ & _ & (R4 & C4 & W4) & (R5 & C5 & W5) & (R6 & C6 & W6)).
+  pose proof HCr as (_ & _ & _ & (R4r & C4r & W4r) & (R5r & C5r & W5r) & (R6r & C6r & W6r)).
+  pose proof Hs as (Rs & Cs & Ws). pose proof Hsr as (Rsr & Csr & Wsr).
+  unfold ps_concat_defined, blk_ok.
+  set (n1 := components S (base S p)) in *. set (n2 := components S (base S rhs)) in *.
+  pose proof (shape_e_cresize_cols _ _ _ (n1 + n2) (conj R4 (conj C4 W4))) as (Rm & Cm & _).
+  pose proof (shape_e_cresize_cols _ _ _ (n1 + n2) (conj Rs (conj Cs Ws))) as (Rt & Ct & _).
+  pose proof (shape_e_cresize_cols _ _ _ (dcov S (base S p) * (n1 + n2)) (conj R5 (conj C5 W5))) as (Rc & Cc & _).
+  pose proof (shape_e_cresize_vec _ _ (n1 + n2) (conj R6 (conj C6 W6))) as (Rw & Cw & _).
+  rewrite Rm, Cm, Rt, Ct, Rc, Cc, Rw, Cw, R4, R5, Rs, R4r, C4r, R5r, C5r, R6r, C6r, Rsr, Csr, Ed, Ev.
+  fold n2. rewrite !andb_true_iff, !Nat.eqb_eq, !Nat.leb_le. repeat split; try lia; nia.
+Qed.
+
+Lemma ps_concat_defined_needs rhs p : Consistent_ps p -> Consistent_ps rhs -> 1 <= components S (base S rhs) ->
+  ps_concat_defined S junk rhs p = true -> concat_ok rhs p.
+Proof.
+  intros [HC Hs] [HCr Hsr] Hn HD. split; [split; assumption|].
+  pose proof HC as (_ & _ & _ & (R4 & C4 & W4) & (R5 & C5 & W5) & (R6 & C6 & W6)).
+  pose proof HCr as (_ & _ & _ & (R4r & C4r & W4r) & (R5r & C5r & W5r) & (R6r & C6r & W6r)).
+  unfold ps_concat_defined, blk_ok in HD. rewrite !andb_true_iff, !Nat.eqb_eq in HD.
+  destruct HD as (((_ & M) & C) & _). destruct M as (((E1 & _) & _) & _). destruct C as (((E2 & _) & _) & _).
+  split; lia.
+Qed.
+
+Lemma gm_augment_defined_ok q g : 1 <= components S g -> gm_augment_defined S q g = true.
+Proof. intros H. unfold gm_augment_defined. apply orb_true_iff. right. apply Nat.leb_le. exact H. Qed.
 
 End C11.
